@@ -415,6 +415,8 @@ class Interp:
                     return hook(args[1])
                 if isinstance(args[1], Stub) or (isinstance(args[1], tuple) and any(isinstance(x, Stub) for x in args[1])):
                     return False
+            if fn is type and len(args) == 1 and hasattr(args[0], "_abs_type"):
+                return args[0]._abs_type
             if fn is getattr and len(args) in (2, 3) and isinstance(args[0], Stub) and isinstance(args[1], str):
                 if args[1].startswith("__"):
                     raise Unsupported("getattr of dunder")
@@ -434,6 +436,8 @@ class Interp:
                 return fn(*args, **kwargs)
             if isinstance(fn, StubCall):
                 return fn.f(*args, **kwargs)
+            if isinstance(fn, Stub) and hasattr(fn, "_abs_call"):
+                return fn._abs_call(*args, **kwargs)
             raise Unsupported("call of " + unparse(e.func))
         if isinstance(e, ast.NamedExpr):
             v = self.ev(e.value, env)
